@@ -66,9 +66,15 @@ def run_property(prop, tier="quick", repo="/repo", evidence_dir=None, quiet=Fals
                 raise AnalysisError(
                     "rule %s found %d instance(s), below its floor %d: an anchor vanished" % (rule.id, n, rule.floor)
                 )
+            seen_keys = {f.key for f in findings}
+            uniq = []
             for fnd in res.findings:
-                fnd.rule = rule.id if not fnd.rule else fnd.rule
-            findings.extend(res.findings)
+                fnd.rule = rule.id
+                if fnd.key not in seen_keys:
+                    seen_keys.add(fnd.key)
+                    uniq.append(fnd)
+            res.findings = uniq
+            findings.extend(uniq)
             notes.extend("%s: %s" % (rule.id, x) for x in res.notes)
             rules_out.append(
                 {
